@@ -160,6 +160,37 @@ def run_mixed_styles(chk, rng, n, stats):
     return run_texts(chk, texts, "mixed-styles", stats)
 
 
+def run_shared_parser(chk, rng, texts, stats):
+    """What a text means must not depend on which texts the same parser / compiler object has seen before (the command line
+    parses the name, filter and sort templates with ONE compiler): a sample of texts — accepted ones, rejected ones and ones
+    with unrecognisable characters, interleaved — is parsed by one shared TemplateParser in sequence and each result is compared
+    with the result of a fresh parser on the same text."""
+    import impl
+    from tempren.template.parser import TemplateParser
+    from tempren.template.exceptions import TemplateError
+    sample = list(texts)
+    rng.shuffle(sample)
+    sample = sample[:1200]
+    fresh = real_parse_many(sample)
+    shared = TemplateParser()
+    bad = 0
+    with impl.quiet_streams():
+        for t, fr in zip(sample, fresh):
+            try:
+                got = ("acc", tplgen.canon(shared.parse(t)))
+            except TemplateError as e:
+                got = ("rej", type(e).__name__)
+            except Exception as e:      # noqa: BLE001
+                got = ("crash", type(e).__name__)
+            want = ("acc", fr[1]) if fr[0] == "acc" else (fr[0], fr[2])
+            chk.count(("shared-parser", t))
+            if got != want and bad < 5:
+                bad += 1
+                chk.oracle_fail("a parser object that has parsed other templates before answers differently from a fresh one: %r vs %r"
+                                % (str(got)[:160], str(want)[:160]), {"stream": "shared-parser", "text": t})
+    stats["shared_parser_texts"] = len(sample)
+
+
 def run_texts(chk, texts, stream, stats):
     results = real_parse_many(texts)
     pc, m_pc = [], []
@@ -313,6 +344,7 @@ def run(chk):
     add(run_texts(chk, muts, "mutated-templates", stats))
     bad = [insert_unrecognisable(rng, t) for t in base if t]
     add(run_texts(chk, bad, "unrecognisable-characters", stats))
+    run_shared_parser(chk, rng, base[:500] + muts[:500] + bad[:500] + seqs[:300], stats)
 
     # shapes the visitor must refuse (F17, F18): a piped tag with its own context, a repeated keyword
     shapes = []
